@@ -125,13 +125,12 @@ func runC16(c *core.Ctx) {
 		var firstBranch, elseBranch *callSite
 		for i := range sites {
 			s := &sites[i]
-			a := c.E.Analyze(s.Fn)
-			facts := a.FactsAt(s.Instr)
+			facts := s.Facts(c)
 			checkTickerCase(c, "C16-R1", s.Fn, s.Instr, fmt.Sprintf("%s.HandleDuties|processExecution#%d", h.typ, i+1))
 			// arguments: slot from the ticker, epoch/period derived from that slot
 			args := s.Instr.Common().Args
-			sl := a.D.D(args[len(args)-1]).String()
-			ep := a.D.D(args[len(args)-2]).String()
+			sl := s.Arg(c, len(args)-1).String()
+			ep := s.Arg(c, len(args)-2).String()
 			c.Decide(sl == slot, "C16-R1", fmt.Sprintf("%s.HandleDuties|processExecution#%d|slot-arg", h.typ, i+1), c.P.Pos(s.Instr.Pos()), sl, "the executed slot is "+sl+", not the tick's slot")
 			c.Decide(strings.Contains(ep, slot) && strings.Contains(ep, "EstimatedEpochAtSlot"), "C16-R1", fmt.Sprintf("%s.HandleDuties|processExecution#%d|%s-arg", h.typ, i+1, h.execArgs), c.P.Pos(s.Instr.Pos()), clip(ep), "the executed "+h.execArgs+" is not derived from the tick's slot: "+clip(ep))
 			if _, ok := facts.Has("T(p0.baseHandler.fetchFirst)"); ok {
@@ -144,10 +143,10 @@ func runC16(c *core.Ctx) {
 		c.Decide(firstBranch != nil && elseBranch != nil && firstBranch != elseBranch, "C16-R2", h.typ+".HandleDuties|sites exclusive on fetchFirst", c.P.Pos(f.Pos()), "one site under fetchFirst, one under !fetchFirst",
 			"the two execution sites are not the two sides of the fetchFirst branch: a tick could execute twice or not at all")
 		if firstBranch != nil && elseBranch != nil {
-			fa := c.E.Analyze(firstBranch.Fn).FactsAt(firstBranch.Instr)
+			fa := firstBranch.Facts(c)
 			_, fetched := fa.Has("called(" + dN + h.typ + ".processFetching(*")
 			c.Decide(fetched, "C16-R2", h.typ+".HandleDuties|fetch-first branch fetches before executing", c.P.Pos(firstBranch.Instr.Pos()), "fetch precedes execute", "on the first tick duties are executed before they are fetched")
-			ea := c.E.Analyze(elseBranch.Fn).FactsAt(elseBranch.Instr)
+			ea := elseBranch.Facts(c)
 			_, fetchedBefore := ea.Has("called(" + dN + h.typ + ".processFetching(*")
 			_, resetBefore := ea.Has("called(ssv/operator/duties/dutystore.*Reset*(*")
 			c.Decide(!fetchedBefore && !resetBefore, "C16-R2", h.typ+".HandleDuties|normal branch executes before re-fetch/reset", c.P.Pos(elseBranch.Instr.Pos()), "execute precedes fetch/reset",
@@ -155,7 +154,7 @@ func runC16(c *core.Ctx) {
 			// every fetch/reset site on the !fetchFirst side of the tick comes after the execution
 			for _, glob := range []string{dN + h.typ + ".processFetching", "ssv/operator/duties/dutystore.*.ResetEpoch", "ssv/operator/duties/dutystore.*.Reset"} {
 				for j, fs := range callsIn(f, glob) {
-					ff := c.E.Analyze(fs.Fn).FactsAt(fs.Instr)
+					ff := fs.Facts(c)
 					if _, tick := ff.Has("F(p0.baseHandler.fetchFirst)"); !tick {
 						continue
 					}
